@@ -21,7 +21,7 @@ W(word) == [c |-> "word", s |-> word]          \* a protocol word / plain ASCII 
 RoundTripClasses == {"plain", "markup", "squote", "dquote", "bmp", "astral", "innerws", "newline"}
 \* classes that exercise the normalisation (surrounding whitespace trimmed, empty = absent)
 NormClasses      == {"padded", "empty", "blank"}
-NumberClasses    == {"numint", "numdec", "numsexa"}
+NumberClasses    == {"numint", "numdec", "numsexa", "numzero"}   \* numzero: the number 0 given as a Python int / float / "0"
 
 IsEmptyText(v) == v.c \in {"none", "empty", "blank"}
 Trim(v) == IF IsEmptyText(v) THEN NoVal
